@@ -786,6 +786,7 @@ TIED = {
     "C05": "appendHeaderLine, newlineToSpace, CaseInsensitiveCompare",
     "C08": "ParseUintBuf (with its overflow test and 64-bit arithmetic), ParseUint, ParseByteRange (never panics; for 0 <= contentLength)",
     "C17": "AppendQuotedArg, AppendQuotedPath, decodeArgAppend, decodeArgAppendNoPlus",
+    "C11": "resp.isInterim (the interim status codes ReadHeaders skips), CaseInsensitiveCompare",
 }
 for _p, _f in TIED.items():
     PROPS[_p]["modules"] = PROPS[_p]["modules"] + ["Hertz.Props.Tie"]
